@@ -943,3 +943,111 @@ def feasible_edges(body, starts=(0,), blocked=frozenset()):
                     state[o] = new
                     work.append(o)
     return set(state.keys()), edges
+
+
+# --------------------------------------------------------------------------------------------
+# single-definition back-trace (field sensitive)
+
+def trace_back(body, local, max_steps=40):
+    """Follow `local` backwards while each local has exactly one definition.  Returns a list of
+    steps, oldest last:  ('field', idx, name) / ('downcast', variant) / ('deref',) for projections
+    applied on the source place, ('use',), ('ref',), ('cast', kind), ('agg', name, operand-index),
+    and terminal ('call', callee, block) | ('param', i) | ('const', v) | ('static', p) |
+    ('multi', n_defs) | ('bin', op)"""
+    steps = []
+    defs = body.defs()
+    cur = local
+    for _ in range(max_steps):
+        if 1 <= cur <= body.argc and not defs.get(cur):
+            steps.append(("param", cur))
+            return steps
+        ds = defs.get(cur, [])
+        if len(ds) != 1:
+            if 1 <= cur <= body.argc:
+                steps.append(("param", cur))
+            else:
+                steps.append(("multi", len(ds)))
+            return steps
+        d = ds[0]
+        if d[0] == "call":
+            t = d[2]
+            steps.append(("call", t.get("res") or t.get("f", "fnptr"), d[1]))
+            return steps
+        st = d[3]
+        r = st.get("r")
+        if r in ("use", "cast"):
+            o = st["o"][0]
+            p = op_place(o)
+            if p is None:
+                if "static" in o:
+                    steps.append(("static", o["static"]))
+                elif "fn" in o:
+                    steps.append(("fn", o["fn"]))
+                elif "uneval" in o:
+                    steps.append(("uneval", o["uneval"]))
+                else:
+                    steps.append(("const", o.get("v", o.get("str", "?"))))
+                return steps
+            if r == "cast":
+                steps.append(("cast", st.get("ck")))
+            for e in reversed(place_proj(p)):
+                steps.append(_proj_step(e))
+            cur = place_local(p)
+            continue
+        if r in ("ref", "rawptr"):
+            p = st["p"]
+            steps.append(("ref",))
+            for e in reversed(place_proj(p)):
+                steps.append(_proj_step(e))
+            cur = place_local(p)
+            continue
+        if r == "agg":
+            nm = st.get("adt", st.get("def", st.get("ak")))
+            if st.get("variant"):
+                nm = "%s::%s" % (nm, st["variant"])
+            steps.append(("agg", nm, d[1], d[2]))
+            return steps
+        if r in ("bin", "un"):
+            steps.append(("bin", st.get("op"), d[1], d[2]))
+            return steps
+        if r == "discr":
+            steps.append(("discr",))
+            cur = place_local(st["p"])
+            continue
+        steps.append(("other", r))
+        return steps
+    steps.append(("multi", -1))
+    return steps
+
+
+def _proj_step(e):
+    if e == "*":
+        return ("deref",)
+    if e.startswith("f:"):
+        _, idx, name, owner = e.split(":", 3)
+        return ("field", int(idx), name)
+    if e.startswith("d:"):
+        return ("downcast", e.split(":", 2)[2])
+    return ("index", e)
+
+
+def trace_through(body, local, transparent=TRANSPARENT_CALLS + RESULT_ADAPTERS, max_hops=8):
+    """trace_back, continuing through transparent calls (first argument)."""
+    allsteps = []
+    cur = local
+    for _ in range(max_hops):
+        st = trace_back(body, cur)
+        allsteps.extend(st)
+        last = st[-1]
+        if last[0] == "call":
+            t = body.term(last[2])
+            names = {t.get("f"), t.get("res")}
+            if names & set(transparent) and t["args"]:
+                p = op_place(t["args"][0])
+                if p is not None:
+                    for e in reversed(place_proj(p)):
+                        allsteps.append(_proj_step(e))
+                    cur = place_local(p)
+                    continue
+        break
+    return allsteps
